@@ -59,4 +59,10 @@ CHECKS = {
         "note": "Tied to parser.rs / executor.rs by the exact correspondence on the mutation stream (accept/reject, error class and label, instruction list). Stack overflow is a runtime behaviour no Lean term exhibits: observed through a child process's exit status.",
         "technique": "Lean 4 proof (executor totality, guess-map accounting, one-constraint-per-instruction) + exact text correspondence on a mutation stream + child-process stress run",
     },
+    "C13": {
+        "text": "Machine-checked proof (Lean 4 + Mathlib, over the reals) that for the constraint kinds listed in the evidence the model's Jacobian row applied to any direction is the derivative of the model's error measure along that direction, at every configuration outside the kind's guard set and for every assignment of variable ids to the constraint's slots (aliasing included); and (every scalar type) that the error measure ignores undeclared variables and every reported variable is declared for its row. Kinds not yet proved are covered by a finite-difference oracle on the real code.",
+        "design_ref": "DESIGN.md §6 C13",
+        "note": "The model's formulas are tied to constraints.rs by corr-kernels (exact ids, flags and branch; floats to 1e-9) over all 27 shapes and all aliasing patterns; the FD oracle works on the real residual / jacobian_rows through the verif-hooks wrappers.",
+        "technique": "Lean 4 + Mathlib HasDerivAt proofs per kind and row (structural derivative + field_simp/ring) + kernel correspondence + finite-difference oracle",
+    },
 }
